@@ -81,3 +81,250 @@ def _native1(mod, conc, model):
 
 
 T1.native_call = _native1
+
+
+# ------------------------------------------------------------------ detectencoding_unicode
+@spec
+def uni_spec(s):
+    if s[0:10] == PREFIX and s.find('"', 10) >= 0:
+        return (s[10:s.find('"', 10)], True)
+    return ('utf-8', False)
+
+
+T2 = register(Target('cssutils/codec.py', 'detectencoding_unicode', ['C07', 'C08']))
+
+
+@T2.inputs
+def _in2(I):
+    return {'input': I.p.fresh('str', 'input'), 'final': I.p.fresh('bool', 'final'), 'ext': I.p.fresh('str', 'ext')}
+
+
+@spec
+def K_unterminated_final(input, final):
+    """recorded class C07-unicode-final-unterminated: final, '@charset "' seen, closing quote never seen"""
+    return final and input[0:10] == PREFIX and input.find('"', 10) < 0
+
+
+@T2.ensure(known=('C07-unicode-final-unterminated', K_unterminated_final))
+def final_equals_spec(input, final, result):
+    return implies(final, result == uni_spec(input))
+
+
+@T2.ensure
+def nonfinal_unknown_or_stable(input, final, ext, result):
+    return implies(not final, result[0] is None or result == uni_spec(input + ext))
+
+
+@T2.ensure(known=('C07-unicode-final-unterminated', K_unterminated_final))
+def final_never_unknown(final, result):
+    return implies(final, result[0] is not None)
+
+
+T2.native_call = lambda mod, c, m: _try(lambda: mod.detectencoding_unicode(c['input'], c['final']))
+
+
+def _try(f):
+    try:
+        return ('return', f())
+    except Exception as e:
+        return ('raise', e)
+
+
+# ------------------------------------------------------------------ _fixencoding
+@spec
+def norm_enc(enc):
+    if enc.replace('_', '-').lower() == 'utf-8-sig':
+        return 'utf-8'
+    return enc
+
+
+@spec
+def fix_spec(u, enc):
+    """rewrite exactly the name between the quotes of a leading @charset rule; identity otherwise"""
+    if u[0:10] == PREFIX and u.find('"', 10) >= 0:
+        return PREFIX + norm_enc(enc) + u[u.find('"', 10):]
+    return u
+
+
+T3 = register(Target('cssutils/codec.py', '_fixencoding', ['C07']))
+
+
+@T3.inputs
+def _in3(I):
+    return {'input': I.p.fresh('str', 'input'), 'encoding': I.p.fresh('str', 'encoding'), 'final': I.p.fresh('bool', 'final'),
+            'ext': I.p.fresh('str', 'ext')}
+
+
+@T3.ensure
+def final_equals_spec(input, encoding, final, result):
+    return implies(final, result == fix_spec(input, encoding))
+
+
+@T3.ensure
+def nonfinal_unknown_or_stable(input, encoding, final, ext, result):
+    return implies(not final, result is None or result + ext == fix_spec(input + ext, encoding))
+
+
+T3.native_call = lambda mod, c, m: _try(lambda: mod._fixencoding(c['input'], c['encoding'], c['final']))
+
+
+# ------------------------------------------------------------------ stdlib codec layer (assumed)
+import codecs as _codecs
+from pyvc.target import contract_model
+from pyvc.builtins import py_len
+
+_S = z3.StringSort()
+UF_DEC = z3.Function('U_dec', _S, _S, _S)  # (encoding name, bytes) -> text, the stdlib one-shot decoder
+UF_ENC = z3.Function('U_enc', _S, _S, _S)  # (encoding name, text) -> bytes
+
+
+def U_dec(enc, b):
+    return _codecs.getdecoder(enc)(b, 'strict')[0]
+
+
+def U_enc(enc, t):
+    return _codecs.getencoder(enc)(t, 'strict')[0]
+
+
+def m_U_dec(I, args, kw):
+    args = [I.need(a) for a in args]
+    if not is_sym(args[0]) and not is_sym(args[1]):
+        return U_dec(*args)
+    return Sym('str', UF_DEC(lift(args[0]), lift(args[1])))
+
+
+def m_U_enc(I, args, kw):
+    args = [I.need(a) for a in args]
+    if not is_sym(args[0]) and not is_sym(args[1]):
+        return U_enc(*args)
+    return Sym('bytes', UF_ENC(lift(args[0]), lift(args[1])))
+
+
+def _codec_factory(uf, kind_out, err):
+    def factory(I, args, kw):
+        enc = I.unwrap(args[0], TypeError) if isinstance(args[0], Opt) else args[0]
+        if enc is None:
+            raise PyRaise(ExcVal(TypeError))
+        I.p.counter += 1
+        if I.p.choose(z3.Bool(f'lookup_fails!{I.p.counter}')):
+            raise PyRaise(ExcVal(LookupError))
+
+        def codec_fn(I2, a, k):
+            data = I2.need(a[0])
+            I2.p.counter += 1
+            if I2.p.choose(z3.Bool(f'codec_error!{I2.p.counter}')):
+                raise PyRaise(ExcVal(err))
+            return (Sym(kind_out, uf(lift(enc), lift(data))), py_len(I2, data))
+
+        return Model(codec_fn, 'stdlib codec function')
+
+    return factory
+
+
+STDLIB_MODELS = {
+    _codecs.getdecoder: Model(_codec_factory(UF_DEC, 'str', UnicodeDecodeError), 'codecs.getdecoder: returns the one-shot decoder U_dec(encoding, .); may raise LookupError; decoder may raise UnicodeDecodeError'),
+    _codecs.getencoder: Model(_codec_factory(UF_ENC, 'bytes', UnicodeEncodeError), 'codecs.getencoder: returns the one-shot encoder U_enc(encoding, .); may raise LookupError; encoder may raise UnicodeEncodeError'),
+    U_dec: Model(m_U_dec, 'U_dec', assumed=False),
+    U_enc: Model(m_U_enc, 'U_enc', assumed=False),
+    chars: Model(m_chars, 'chars', assumed=False),
+}
+
+DETECT_T = ('tuple', [('opt', 'str'), 'bool'])
+
+
+def _repo_models():
+    import cssutils.codec as C
+    return {
+        C.detectencoding_str: contract_model(T1, DETECT_T, ['input', 'final']),
+        C.detectencoding_unicode: contract_model(T2, DETECT_T, ['input', 'final']),
+        C._fixencoding: contract_model(T3, ('opt', 'str'), ['input', 'encoding', 'final']),
+        C.chars: Model(m_chars, 'codec.chars', assumed=False),
+    }
+
+
+# ------------------------------------------------------------------ decode
+@spec
+def used_encoding(input, encoding, force):
+    d = full_spec(input)
+    if encoding is None:
+        return d[0]
+    if d[1] and not force:
+        return d[0]
+    return encoding
+
+
+T4 = register(Target('cssutils/codec.py', 'decode', ['C07', 'C08']))
+T4.models.update(STDLIB_MODELS)
+
+
+@T4.inputs
+def _in4(I):
+    I.p.engine.models.update(_repo_models())
+    return {'input': I.p.fresh('bytes', 'input'), 'errors': 'strict', 'encoding': I.p.fresh_opt('str', 'encoding'),
+            'force': I.p.fresh('bool', 'force')}
+
+
+@T4.ensure
+def decodes_with_precedence_and_fixes_header(input, encoding, force, result):
+    e = used_encoding(input, encoding, force)
+    return result == (fix_spec(U_dec(e, input), e), len(input))
+
+
+@T4.on_raise(ValueError)
+def only_for_css(input, encoding, force):
+    return (encoding is None or not force) and full_spec(input)[0] == 'css'
+
+
+T4.allow_raise(LookupError)
+T4.allow_raise(UnicodeDecodeError)
+T4.native_call = lambda mod, c, m: _try(lambda: mod.decode(c['input'], c['errors'], c['encoding'], c['force']))
+
+# ------------------------------------------------------------------ encode
+T5 = register(Target('cssutils/codec.py', 'encode', ['C07', 'C08']))
+T5.models.update(STDLIB_MODELS)
+
+
+@T5.inputs
+def _in5(I):
+    I.p.engine.models.update(_repo_models())
+    return {'input': I.p.fresh('str', 'input'), 'errors': 'strict', 'encoding': I.p.fresh_opt('str', 'encoding')}
+
+
+@spec
+def encode_plan(input, encoding):
+    """(encoding used, text handed to the encoder)"""
+    if encoding is None:
+        e = uni_spec(input)[0]
+        if e.replace('_', '-').lower() == 'utf-8-sig':
+            return (e, fix_spec(input, 'utf-8'))
+        return (e, input)
+    return (encoding, fix_spec(input, encoding))
+
+
+@spec
+def K5(input, encoding):
+    """recorded class C07-unicode-final-unterminated as seen from encode(): no encoding given and the text
+    starts an @charset rule that is never closed (the detector's answer is then unspecified)"""
+    return encoding is None and K_unterminated_final(input, True)
+
+
+@T5.ensure(known=('C07-unicode-final-unterminated', K5))
+def encodes_fixed_text(input, encoding, result):
+    plan = encode_plan(input, encoding)
+    return result == (U_enc(plan[0], plan[1]), len(input))
+
+
+@T5.on_raise(ValueError)
+def only_for_css(input, encoding):
+    return encode_plan(input, encoding)[0] == 'css' or K5(input, encoding)
+
+
+@T5.on_raise(AttributeError, name='known_unterminated_charset')
+def _k5(input, encoding):
+    # recorded class C07-unicode-final-unterminated reaches encode(): None.replace
+    return K5(input, encoding)
+
+
+T5.allow_raise(LookupError)
+T5.allow_raise(UnicodeEncodeError)
+T5.native_call = lambda mod, c, m: _try(lambda: mod.encode(c['input'], c['errors'], c['encoding']))
